@@ -18,7 +18,7 @@ import Ark.Model.Proto
   Elements and tables are comma-separated base-prime-field coordinates (standard integer values),
   flattened in the order of `to_base_prime_field_elements`.
 
-  Op lines: `<op> <id> <args…>`.
+  Op lines: `<op> <id> <args…>`  (and `charsq6 <limbs>` for the guard of the Granger–Scott squaring).
 
   The verdict is an *independent* executable spec on flattened coordinates: schoolbook
   multiplication in `F[X]/(X^k - β)`, layer by layer (`smul`), with `β` the constant `NONRESIDUE`;
@@ -149,7 +149,7 @@ def isInverse (I : Inst) (a : List Nat) (impl : String) : String :=
 
 def ringOps : List String :=
   ["add", "sub", "neg", "double", "mul", "square", "mulprime", "mulbase", "mulfp", "mulfp2", "mulafp2",
-   "m034", "m014", "m01", "m1", "fromelems"]
+   "m034", "m014", "m01", "m1", "fromelems", "hnr", "hnradd", "hnrp1", "hsub"]
 
 def verdict (I : Inst) (op : String) (args : List String) (impl : String) : Option String := do
   if I.ringOnly && !ringOps.contains op then return "ok"
@@ -204,6 +204,27 @@ def verdict (I : Inst) (op : String) (args : List String) (impl : String) : Opti
   | "fromelems", [l] =>
     let l ← parseList? l
     some (if l.length == n then eq l else vs impl "none")
+  -- the overridable hooks, called directly: they must multiply by the constant `NONRESIDUE`
+  | "hnr", [y] =>
+    let y ← parseList? y
+    match sh with
+    | .prime => none
+    | .ext _ β b => some (eq (smul p b β y))
+  | "hnradd", [y, x] =>
+    let y ← parseList? y; let x ← parseList? x
+    match sh with
+    | .prime => none
+    | .ext _ β b => some (eq (vadd p x (smul p b β y)))
+  | "hnrp1", [y, x] =>
+    let y ← parseList? y; let x ← parseList? x
+    match sh with
+    | .prime => none
+    | .ext _ β b => some (eq (vadd p (vadd p x (smul p b β y)) y))
+  | "hsub", [y, x] =>
+    let y ← parseList? y; let x ← parseList? x
+    match sh with
+    | .prime => none
+    | .ext _ β b => some (eq (vsub p x (smul p b β y)))
   -- cyclotomic operations: the property speaks about members of the cyclotomic subgroup only
   | "cycsq", [a] =>
     let a ← el a
@@ -277,6 +298,10 @@ def quadExtra {F : Type} [Add F] [Sub F] [Mul F] [Neg F] [Zero F] [One F] [Decid
   | "norm", [a] => do let a ← parseE D a; some (showE B (Quad.norm cfg B a))
   | "conj", [a] => do let a ← parseE D a; some (showE D (Quad.conj a))
   | "mulbase", [a, e] => do let a ← parseE D a; let e ← parseE B e; some (showE D (Quad.mulByBase a e))
+  | "hnr", [y] => do let y ← parseE B y; some (showE B (cfg.mulNr y))
+  | "hnradd", [y, x] => do let y ← parseE B y; let x ← parseE B x; some (showE B (cfg.mulNrAndAdd y x))
+  | "hnrp1", [y, x] => do let y ← parseE B y; let x ← parseE B x; some (showE B (cfg.mulNrPlusOneAndAdd y x))
+  | "hsub", [y, x] => do let y ← parseE B y; let x ← parseE B x; some (showE B (cfg.subAndMulNr y x))
   | _, _ => more op args
 
 /-- ops of `CubicExtField` that mention the base field -/
@@ -287,6 +312,7 @@ def cubicExtra {F : Type} [Add F] [Sub F] [Mul F] [Neg F] [Zero F] [One F] [Deci
   match op, args with
   | "norm", [a] => do let a ← parseE D a; some (showO B (Cubic.norm cfg B a))
   | "mulbase", [a, e] => do let a ← parseE D a; let e ← parseE B e; some (showE D (Cubic.mulByBase a e))
+  | "hnr", [y] => do let y ← parseE B y; some (showE B (cfg.mulNr y))
   | _, _ => more op args
 
 def mkFp2Cfg (hooks : String) (nr : Fp p) (tbl : List (Fp p)) : Fp2Cfg (Fp p) :=
@@ -486,6 +512,10 @@ def run (cache : Cache) (op : String) (args : List String) (impl : String) :
     let I := { I with ringOnly := ring }
     let d := hex I.shape.deg
     some ({ insts := (id, I) :: cache.insts.filter (fun e => e.1 != id) }, d, vs impl d)
+  | "charsq6", [limbs] =>
+    -- `characteristic_square_mod_6_is_one(limbs)`; spec: the square of the denoted integer is 1 mod 6
+    let l ← parseList? limbs
+    some (cache, boolStr (charSquareMod6IsOne l), vs impl (boolStr ((value l * value l) % 6 == 1)))
   | _, id :: rest =>
     let I ← (cache.insts.find? (fun e => e.1 == id)).map (·.2)
     let m ← I.model op rest
